@@ -37,11 +37,14 @@ def identOK (s : List Char) : Bool :=
   | c :: w => !isDigit c && c != '.' && c != '\'' && c != '"' && !isWs c && identChar c && w.all identChar
   | [] => false
 
-/-- `c` or `\c` between the quotes -/
+/-- between the quotes: `c`; `\c` (one printable character); `\ooo` (one to three octal digits); `\xh…` -/
 def chrOK (s : List Char) : Bool :=
   match s with
   | [c] => isPrintable c && c != '\\' && c != '\''
-  | ['\\', c] => isPrintable c
+  | '\\' :: c :: r =>
+    (r.isEmpty && isPrintable c) ||
+    (isOctDigit c && decide (r.length ≤ 2) && r.all isOctDigit) ||
+    (c == 'x' && !r.isEmpty && r.all isHexDigit)
   | _ => false
 
 def opOK (s : List Char) (txt : String) : Bool :=
@@ -236,10 +239,55 @@ theorem lexIdent_word (c : Char) (w rest : List Char) (hd : isDigit c = false)
   congr 2
   simp
 
+theorem numericEscape_none (c : Char) (r : List Char) (h : c ≠ '\\') : numericEscape (c :: r) = none := by
+  unfold numericEscape
+  split
+  · rename_i heq; simp only [List.cons.injEq] at heq; exact absurd heq.1 h
+  · rfl
+
+theorem quote_not_digit : isOctDigit '\'' = false ∧ isHexDigit '\'' = false := by decide
+
+/-- `\` and one to three octal digits, then the closing quote -/
+theorem numericEscape_oct (c : Char) (r rest : List Char) (hc : isOctDigit c = true) (hl : r.length ≤ 2)
+    (hr : r.all isOctDigit = true) :
+    numericEscape ('\\' :: c :: (r ++ '\'' :: rest)) = some ('\\' :: c :: r, '\'' :: rest) := by
+  have hq := quote_not_digit.1
+  unfold numericEscape
+  simp only [hc, if_true]
+  match r, hl, hr with
+  | [], _, _ => simp [List.take, List.takeWhile, hc, hq]
+  | [a], _, hr =>
+    simp only [List.all_cons, List.all_nil, Bool.and_true] at hr
+    simp [List.take, List.takeWhile, hc, hq, hr]
+  | [a, b], _, hr =>
+    simp only [List.all_cons, List.all_nil, Bool.and_true, Bool.and_eq_true] at hr
+    simp [List.take, List.takeWhile, hc, hr.1, hr.2]
+
+/-- `\x` and hexadecimal digits, then the closing quote -/
+theorem numericEscape_hex (r rest : List Char) (hne : r.isEmpty = false) (hr : r.all isHexDigit = true) :
+    numericEscape ('\\' :: 'x' :: (r ++ '\'' :: rest)) = some ('\\' :: 'x' :: r, '\'' :: rest) := by
+  have hx : isOctDigit 'x' = false := by decide
+  have htw : (r ++ '\'' :: rest).takeWhile isHexDigit = r := takeWhile_stop isHexDigit r '\'' rest hr quote_not_digit.2
+  unfold numericEscape
+  simp only [hx, Bool.false_eq_true, if_false, beq_self_eq_true, if_true, htw, hne]
+  congr 2
+  simp
+
+/-- `\x` not followed by a hexadecimal digit is no numeric escape -/
+theorem numericEscape_x_quote (rest : List Char) : numericEscape ('\\' :: 'x' :: '\'' :: rest) = none := by
+  have hx : isOctDigit 'x' = false := by decide
+  unfold numericEscape
+  simp [hx, List.takeWhile, quote_not_digit.2]
+
+theorem numericEscape_other (c : Char) (r : List Char) (h1 : isOctDigit c = false) (h2 : c ≠ 'x') :
+    numericEscape ('\\' :: c :: r) = none := by
+  unfold numericEscape
+  simp [h1, h2]
+
 theorem lexChar_plain (c : Char) (rest : List Char) (hp : isPrintable c = true) (hb : c ≠ '\\') :
     lexChar ('\'' :: c :: '\'' :: rest) = some ([c], rest) := by
   unfold lexChar
-  simp only
+  simp only [numericEscape_none c _ hb]
   split
   · rename_i c' rest' heq
     simp only [List.cons.injEq] at heq
@@ -252,10 +300,35 @@ theorem lexChar_plain (c : Char) (rest : List Char) (hp : isPrintable c = true) 
   · rename_i h1 h2
     exact absurd rfl (h2 c rest)
 
+/-- a numeric escape followed by the closing quote is one character constant -/
+theorem lexChar_numeric (t r1 rest : List Char) (h : numericEscape r1 = some (t, '\'' :: rest)) :
+    lexChar ('\'' :: r1) = some (t, rest) := by
+  unfold lexChar
+  simp only [h]
+
 theorem lexChar_escaped (c : Char) (rest : List Char) (hp : isPrintable c = true) :
     lexChar ('\'' :: '\\' :: c :: '\'' :: rest) = some (['\\', c], rest) := by
-  unfold lexChar
-  simp [hp]
+  by_cases ho : isOctDigit c = true
+  · exact lexChar_numeric _ _ rest (numericEscape_oct c [] rest ho (by simp) rfl)
+  · have ho' : isOctDigit c = false := by simpa using ho
+    have hn : numericEscape ('\\' :: c :: '\'' :: rest) = none := by
+      by_cases hx : c = 'x'
+      · subst hx; exact numericEscape_x_quote rest
+      · exact numericEscape_other c _ ho' hx
+    unfold lexChar
+    simp [hn, hp]
+
+/-- every spelling of the class `chrOK` that starts with a backslash -/
+theorem lexChar_backslash (c : Char) (r rest : List Char)
+    (h : ((r.isEmpty && isPrintable c) || (isOctDigit c && decide (r.length ≤ 2) && r.all isOctDigit) ||
+          (c == 'x' && !r.isEmpty && r.all isHexDigit)) = true) :
+    lexChar ('\'' :: '\\' :: c :: (r ++ '\'' :: rest)) = some ('\\' :: c :: r, rest) := by
+  simp only [Bool.or_eq_true, Bool.and_eq_true, decide_eq_true_eq, beq_iff_eq, Bool.not_eq_eq_eq_not, Bool.not_true,
+    List.isEmpty_iff] at h
+  rcases h with (⟨rfl, hp⟩ | ⟨⟨ho, hl⟩, hr⟩) | ⟨⟨rfl, hne⟩, hr⟩
+  · exact lexChar_escaped c rest hp
+  · exact lexChar_numeric _ _ rest (numericEscape_oct c r rest ho hl hr)
+  · exact lexChar_numeric _ _ rest (numericEscape_hex r rest (by cases r <;> simp_all) hr)
 
 /-! ## `tokenize_one` on a token followed by a blank -/
 
@@ -295,10 +368,11 @@ theorem tokenizeOne_ok (t : Tok) (rest : List Char) (pw : Bool) (h : lexOK t = t
       rw [heq] at e ⊢
       simp only [List.cons_append, List.nil_append]
       rw [lexNumber_none '\'' _ (by decide) hq, lexChar_plain c _ h.1.1 h.1.2, e]
-    · rename_i c heq
+    · rename_i c r heq
       rw [heq] at e ⊢
-      simp only [List.cons_append, List.nil_append]
-      rw [lexNumber_none '\'' _ (by decide) (by decide), lexChar_escaped c _ h, e]
+      simp only [List.cons_append]
+      rw [lexNumber_none '\'' _ (by decide) (by decide), List.append_assoc, List.singleton_append,
+        lexChar_backslash c r _ h, e]
     · exact absurd h (by simp)
   · -- ident
     unfold identOK at h
